@@ -71,6 +71,9 @@ NOT_REG_NAME = re.compile(
     re.VERBOSE,
 )
 
+# authority delimiters that must not occur in the zone id of an IP address
+INVALID_IN_ZONE = re.compile(r"[@:\[\]/?#]")
+
 _T = TypeVar("_T")
 
 if sys.version_info >= (3, 11):
@@ -1512,6 +1515,9 @@ def _encode_host(host: str, validate_host: bool) -> str:
                     raise ValueError(f"Invalid IPv6 address {host!r}") from None
                 return f"[{host.lower()}]"
         else:
+            if sep and INVALID_IN_ZONE.search(zone):
+                # an authority delimiter in the zone id would end up in the netloc
+                raise ValueError(f"Invalid zone identifier {zone!r} in host {host!r}")
             # These checks should not happen in the
             # LRU to keep the cache size small
             host = ip.compressed
